@@ -4,8 +4,9 @@
    model/LegacySyntax.v (lexers and parsers of both grammars), gen/LegacyTable.v (callMigrators,
    functionReturnTypes, precedence constants: regenerated from the source on every run).
    Specification: proofs/LegacyProofs.v [mt]: the intended Excellent3 tree of a legacy tree (each legacy node
-   becomes the node or call of the same meaning over the intended trees of its operands, in the same order;
-   [wrap] only adds a pair of parentheses).  [mt e = None] for inputs without an intended tree: a call with the
+   becomes the node, or the call the table's template/rename prescribes, over the intended trees of its operands
+   in the template's positions; [wrap] only adds a pair of parentheses).  That the table's names, argument order and
+   constants are the right ones is the separate obligation c17_table_meets_spec (independent specification).  [mt e = None] for inputs without an intended tree: a call with the
    wrong number of arguments, a function name, context reference or literal whose migrated spelling is not one
    Excellent3 token (e.g. a literal ending in a backslash).  The real code migrates such input to text that
    does not parse or evaluates to an error value; no theorem speaks about them.
@@ -14,7 +15,8 @@ From Coq Require Import List NArith Bool.
 From Coq Require String.
 Import String.StringSyntax.
 From Verif Require Import model.LegacyTy gen.LegacyTable model.LegacySyntax model.Legacy model.LegacyCorr.
-From Verif Require Import proofs.LegacyWf proofs.LegacySyntaxProofs proofs.LegacyProofs.
+From Verif Require Import proofs.LegacyWf proofs.LegacySyntaxProofs proofs.LegacyProofs proofs.LegacyRescan.
+From Verif Require model.ExScanner proofs.ExScannerProofs proofs.LegacyGrammarLink.
 Import ListNotations.
 Open Scope N_scope.
 
@@ -31,11 +33,17 @@ Print Assumptions c17_templates_closed.
 
 (* Second table obligation: for every legacy function (sample call with atomic operands) and operator, the
    migrated text parses to the expression an independent specification prescribes (new name, argument order,
-   constants, zero-based positions; proofs/LegacyProofs.v legacy_spec, 81 lines written from the function
-   references), up to parentheses.  A swapped placeholder or a wrong rename breaks it. *)
+   constants, zero-based positions, the date/time forms of + and -; proofs/LegacyProofs.v legacy_spec, 105 lines
+   written from the function references), up to parentheses.  A swapped placeholder or a wrong rename breaks it. *)
 Theorem c17_table_meets_spec : forallb spec_ok legacy_spec = true.
 Proof. exact table_meets_spec. Qed.
 Print Assumptions c17_table_meets_spec.
+
+(* ... and that specification has a sample call for every key of the regenerated table and every number of
+   arguments the migrator admits for it, so a new or changed callMigrators entry cannot escape it. *)
+Theorem c17_spec_covers_table : forallb entry_covered legacy_table = true.
+Proof. exact spec_covers_table. Qed.
+Print Assumptions c17_spec_covers_table.
 
 (* Printing a precedence-stable, lexically sane Excellent3 tree and parsing the text gives the tree back. *)
 Theorem c17_print_parse : forall t, wf3b t = true -> lex_ok t = true -> parse3 (print3 t) = Some t.
@@ -66,15 +74,16 @@ Print Assumptions c17_grouping.
 
 (* The intended tree exists for every regular legacy tree (proofs/LegacyProofs.v [regular]: literals without
    backslash, DECIMAL tokens, any operators and nesting, table functions with a number of arguments the migrator
-   accepts, unknown functions named by one Excellent3 NAME), provided every context reference migrates to a
-   canonically printed expression ([canon]; checked on every name of every generated template on each run).
+   accepts, unknown functions named by one Excellent3 NAME), provided the context references THAT OCCUR IN e
+   ([refs1 e]) migrate to canonically printed expressions ([canon]; checked on every name of every generated
+   template on each run; false e.g. for a non-ASCII digit-leading path segment, which the real mapper leaves alone).
    So for all such trees the migrated text re-parses to the intended tree. *)
-Theorem c17_intended_tree_exists : forall ctxmap raw_dates,
-  (forall n, canon (ctxmap n) <> None) ->
-  forall e, regular e -> exists t, mt ctxmap raw_dates e = Some t /\ parse3 (visit ctxmap raw_dates e) = Some t.
+Theorem c17_intended_tree_exists : forall ctxmap raw_dates e,
+  (forall n, In n (refs1 e) -> canon (ctxmap n) <> None) ->
+  regular e -> exists t, mt ctxmap raw_dates e = Some t /\ parse3 (visit ctxmap raw_dates e) = Some t.
 Proof.
-  exact (fun ctxmap raw_dates Hctx e R =>
-           match mt_total ctxmap raw_dates Hctx e R with
+  exact (fun ctxmap raw_dates e Hctx R =>
+           match mt_total ctxmap raw_dates e Hctx R with
            | ex_intro _ t Ht => ex_intro _ t (conj Ht (grouping ctxmap raw_dates e t Ht))
            end).
 Qed.
@@ -103,6 +112,23 @@ Proof.
            expr_parses ctxmap raw_dates false false printable isln lower_rune s e t following eq_refl eq_refl).
 Qed.
 Print Assumptions c17_parses.
+
+Theorem c17_identifier_parses : forall ctxmap raw_dates printable isln lower_rune n tr following,
+  canon (ctxmap n) = Some tr ->
+  exists body, migrate_seg ctxmap raw_dates false false printable isln lower_rune (SIdent n) following = (64 :: body, false) /\
+    (body = print3 tr \/ body = 40 :: print3 tr ++ [41]) /\ parse3 (print3 tr) = Some tr.
+Proof.
+  exact (fun ctxmap raw_dates printable isln lower_rune n tr following =>
+           ident_parses ctxmap raw_dates false false printable isln lower_rune n tr following eq_refl eq_refl).
+Qed.
+Print Assumptions c17_identifier_parses.
+
+(* The Excellent3 ladder and operator spellings hard-coded in model/LegacySyntax.v agree with gen/GrammarE3.v, the
+   table regenerated from antlr/Excellent3.g4 on every run that the parser model of C11/C12 (model/ExParser.v)
+   computes its precedences from (same order of all binary operators, prefix minus above all of them). *)
+Theorem c17_ladder_matches_grammar : LegacyGrammarLink.ladder_agrees = true /\ LegacyGrammarLink.spelling_agrees = true.
+Proof. exact (conj LegacyGrammarLink.ladder_agrees_ok LegacyGrammarLink.spelling_agrees_ok). Qed.
+Print Assumptions c17_ladder_matches_grammar.
 
 (* Literals: a legacy literal without backslash and without raw newline (any other characters, doubled quotes
    included) denotes the same characters after migration, read the way the Excellent3 visitor reads a TEXT
@@ -147,6 +173,53 @@ Theorem c17_body_only : forall ctxmap raw_dates default_to_self url_encode print
   migrate_template ctxmap raw_dates default_to_self url_encode printable isln lower_rune (map SBody ts) = (concat ts, false).
 Proof. exact body_only. Qed.
 Print Assumptions c17_body_only.
+
+(* Scanner level (reviewer's finding, repaired by /repo db33e56): what the template scanner of the new syntax
+   (model of property C12: model/ExScanner.v; [p_scan] is its functional description, proofs/ExScannerProofs.v
+   scan_ref / ExScannerBound.v scan_ok) cuts out of the migrated template at the place of an @(...) token: exactly
+   one IDENTIFIER or EXPRESSION token carrying the printed intended tree, whatever text f follows, and f is left
+   untouched for the next token.  Hypotheses: the literals of the tree are read by the scanner to their closing
+   quote ([scan_lits]; true for every migrated legacy literal without backslash: c17_literal_scanner_closed), no NUL.
+   isln = unicode.IsLetter||IsNumber, lower_rune = unicode.ToLower are parameters. *)
+Theorem c17_rescan_expression : forall isln lower_rune,
+  isln ExScanner.eof = false -> isln ExScanner.r_at = false ->
+  forall ctxmap raw_dates printable s e t f,
+  separates_identifiers = true ->
+  text_eqb s t_empty_literal = false ->
+  parse1 s = Some e -> mt ctxmap raw_dates e = Some t -> scan_lits t = true ->
+  ExScannerProofs.nulfree (print3 t ++ f) ->
+  let out := fst (migrate_seg ctxmap raw_dates false false printable isln lower_rune (SExpr s) f) in
+  let pscan := ExScannerProofs.p_scan isln lower_rune (Some run_top_levels) true in
+  pscan (out ++ f) = (ExScanner.IDENTIFIER, print3 t, f) \/ pscan (out ++ f) = (ExScanner.EXPRESSION, print3 t, f).
+Proof. exact rescan_expression. Qed.
+Print Assumptions c17_rescan_expression.
+
+(* table obligation: separateFrom is there (a revert of db33e56 breaks this) *)
+Theorem c17_separates_identifiers : separates_identifiers = true.
+Proof. exact separates. Qed.
+Print Assumptions c17_separates_identifiers.
+
+(* ... and without it the scanner-level statement is refuted: @contact.name followed by s reads as @contact.names *)
+Theorem c17_rescan_refuted_without_separation :
+  exists x f, ExScannerProofs.p_scan isln_approx lower_cp (Some run_top_levels) true (64 :: x ++ f)
+              <> (ExScanner.IDENTIFIER, x, f).
+Proof. exact glue_without_separation. Qed.
+Print Assumptions c17_rescan_refuted_without_separation.
+
+Theorem c17_literal_scanner_closed : forall s, Forall (fun c => c <> c_bslash) s ->
+  scan_lits (X3Text (migrate_string_literal (legacy_quote s))) = true.
+Proof. exact literal_scan_ok. Qed.
+Print Assumptions c17_literal_scanner_closed.
+
+Example c17_rescan_example :
+  let ctx := fun n => lower n in
+  exists e t, parse1 [99; 111; 110; 116; 97; 99; 116; 46; 110; 97; 109; 101] = Some e /\ mt ctx false e = Some t /\
+    scan_lits t = true /\
+    fst (migrate_seg ctx false false false printable_approx isln_approx lower_cp
+           (SExpr [99; 111; 110; 116; 97; 99; 116; 46; 110; 97; 109; 101]) [115])
+    = [64; 40; 99; 111; 110; 116; 97; 99; 116; 46; 110; 97; 109; 101; 41].
+Proof. exact rescan_example. Qed.
+Print Assumptions c17_rescan_example.
 
 (* The hypotheses are satisfiable on a nested expression using every kind of migrator. *)
 Example c17_grouping_example :
